@@ -104,6 +104,11 @@ def compile_props(pid):
     them Print Assumptions reports closed (or resting only on std-lib axioms)."""
     files = P.PROPS[pid].get("props", [pid])
     names_all, discharged, axioms_all, log_all, broken = [], 0, set(), "", None
+    from concurrent.futures import ThreadPoolExecutor
+    present = [fn for fn in files if os.path.exists(os.path.join(COQ, "Props", fn + ".v"))]
+    with ThreadPoolExecutor(max_workers=8) as ex:   # the theorem files are independent of each other
+        compiled = dict(zip(present, ex.map(
+            lambda fn: sh(["coqc", "-Q", COQ, "Mux", os.path.join(COQ, "Props", fn + ".v")], cwd=COQ, timeout=1800), present)))
     for fn in files:
         f = os.path.join(COQ, "Props", fn + ".v")
         if not os.path.exists(f):
@@ -112,7 +117,7 @@ def compile_props(pid):
         src = open(f).read()
         order = re.findall(r"^\s*Print Assumptions\s+(\w+)\s*\.", src, re.M)
         declared = re.findall(r"^\s*(?:Theorem|Corollary)\s+(\w+)", src, re.M)
-        rc, out = sh(["coqc", "-Q", COQ, "Mux", f], cwd=COQ, timeout=1800)
+        rc, out = compiled[fn]
         log_all += out
         blocks = re.findall(r"(Closed under the global context|Axioms:\n(?:.+\n?)+?(?=\n|\Z))", out)
         mine = [n for n in declared if n.startswith(pid + "_")]
